@@ -109,6 +109,33 @@ Example ex_watchdog :
   active (fst (wd_execute current no_timeouts st_dl)) = [1].
 Proof. vm_compute. auto. Qed.
 
+(* run_maintenance: priority inversion.  op1 (priority 5) holds the preemptable r1;
+   op2 (priority 3) holds r2 and is BLOCKED on r1; op3 (priority 9) is blocked on r2.
+   check_and_boost raises op2 and op1 to 9 (no lock, nobody ended, graph unchanged),
+   op4 sits in G1 without its resources for 5 > 2 seconds and is reaped for
+   starvation; afterwards op2's retry PREEMPTS r1, which it was blocked on before. *)
+Definition hist_pi : list op :=
+  [OFlat (FStart 1 5 false); OFlat (FAcquire 1 1); OFlat (FStart 2 3 false); OFlat (FAcquire 2 2);
+   OFlat (FAcquire 2 1); OFlat (FStart 3 9 false); OFlat (FAcquire 3 2);
+   OFlat (FStart 4 0 false); OFlat (FAdvance 4); OFlat (FAcquire 4 2); OFlat (FTick 5)].
+Definition w_starve : wcfg := mkW None (Some 2) None SPriority.
+Definition st_pi : st := fst (run_ops current w_starve (init_state [(1, true); (2, false)]) hist_pi).
+Example ex_maintenance :
+  WF st_pi /\
+  (exists s1, pi_boost st_pi = Some (s1, [(2, 9); (1, 9)]) /\
+              snd (wd_execute current w_starve s1) = [(4, RStarvation)]) /\
+  snd (fstep current w_starve st_pi FMaintain) = [2; 2; 9; 1; 9; 4; 1] /\
+  let s' := fst (fstep current w_starve st_pi FMaintain) in
+  active s' = [1; 2; 3] /\ owner s' 1 = Some 1 /\
+  snd (fstep current w_starve st_pi (FAcquire 2 1)) = [1] /\      (* BLOCKED before ... *)
+  snd (fstep current w_starve s' (FAcquire 2 1)) = [3] /\         (* ... PREEMPTED after the boost *)
+  snd (fstep current w_starve s' (FPopWaiter 2)) = [1; 3; 9].
+Proof.
+  split; [apply reachable_wf_proof|].
+  split; [eexists; split; vm_compute; reflexivity|].
+  vm_compute. auto 10.
+Qed.
+
 Example ex_shutdown : active (shutdown current st0) = [] /\ owner (shutdown current st0) 2 = None.
 Proof. vm_compute. auto. Qed.
 
